@@ -12,7 +12,7 @@ import (
 )
 
 func init() {
-	register("C13", c13Stable, c13Append, c13Accumulate, c13Release, c13Len, c13Remainder, c13Window, c13Alias, c13TailPtr, c13WriterReset, c13CopyNode, c13ReadLen, c13AbortFirst, c13Cursors)
+	register("C13", c13Stable, c13Append, c13Accumulate, c13Release, c13Len, c13Remainder, c13Window, c13Alias, c13TailPtr, c13WriterReset, c13CopyNode, c13ReadLen, c13AbortFirst, c13Cursors, c04ReadCommit)
 }
 
 const pkgStd = Mod + "/pkg/network/standard"
